@@ -200,7 +200,7 @@ def tlc_validate(module, cfg, trace_path, timeout=600, extra_files=None, dfs=Fal
         props = ["tlc2.tool.queue.IStateQueue=StateDeque"] if dfs else []
         t0 = time.time()
         rc, out = _java(args, d, timeout, heap="8g", props=props)
-        m = re.search(r'<<"TRACE-RESULT", (\d+), (\d+), (\[.*?\])>>', out, re.S)
+        m = re.search(r'<<\s*"TRACE-RESULT",\s*(\d+),\s*(\d+),\s*(\[.*?\])\s*>>\s*\n', out, re.S)
         if not m:
             raise Inconclusive("trace validation gave no result (rc=%s):\n%s" % (rc, out[-4000:]))
         consumed, total, badtxt = int(m.group(1)), int(m.group(2)), m.group(3)
@@ -210,8 +210,13 @@ def tlc_validate(module, cfg, trace_path, timeout=600, extra_files=None, dfs=Fal
             cats = re.findall(r'"(\w+)"', badtxt.split("cats", 1)[1]) if "cats" in badtxt else []
             cats = re.findall(r'"(\w+)"', re.search(r"cats \|-> \{([^}]*)\}", badtxt).group(1))
             bad = {"line": int(mb.group(1)), "cats": sorted(set(cats)), "model": " ".join(badtxt.split())[:3000]}
+        allbad = []
+        ma = re.search(r'<<\s*"TRACE-ALL",(.*?)<<\s*"TRACE-RESULT"', out, re.S)
+        if ma:
+            for mm in re.finditer(r"line \|-> (\d+), cats \|-> \{([^}]*)\}", ma.group(1)):
+                allbad.append({"line": int(mm.group(1)), "cats": sorted(re.findall(r'"(\w+)"', mm.group(2)))})
         ms = re.search(r"(\d+) states generated, (\d+) distinct states found", out)
-        return {"consumed": consumed, "total": total, "bad": bad, "wall": time.time() - t0,
+        return {"allbad": allbad, "consumed": consumed, "total": total, "bad": bad, "wall": time.time() - t0,
                 "states": int(ms.group(1)) if ms else 0, "distinct": int(ms.group(2)) if ms else 0, "out": out}
     finally:
         shutil.rmtree(d, ignore_errors=True)
